@@ -74,6 +74,20 @@ func checkVoteFunc(c *core.Ctx, sp voteSpec) {
 	}
 	isVoter := func(v ssa.Value) bool { p, ok := ir.Strip(v).(*ssa.Parameter); return ok && p.Name() == "address" }
 	loops := eng.FindMapLoops(fn, func(v ssa.Value) bool { return isFieldNamed(v, "PeerPoolMap") })
+	memberHost := fn
+	if len(loops) == 1 {
+		// the membership loop may sit in a same-package helper answering "is a consensus peer"
+		hosts, releaseHosts := hostsWithHelpers(fn)
+		defer releaseHosts()
+		for _, h := range hosts[1:] {
+			ls := eng.FindMapLoops(h, func(v ssa.Value) bool { return isFieldNamed(v, "PeerPoolMap") })
+			if len(ls) == 1 && memberHost == fn {
+				memberHost = h
+				loops = append(ls, loops...)
+				c.Attribute(h, fn)
+			}
+		}
+	}
 	if len(loops) != 2 {
 		c.Broken("C25.shape", fn, "two loops over the peer pool", c.P.Rel(fn.Pos()), sprintf("%d", len(loops)))
 		return
@@ -135,29 +149,49 @@ func checkVoteFunc(c *core.Ctx, sp voteSpec) {
 	eng.Dominates(c, "C25.only-validators-vote", fn, member, trueRets, "possibly-true return", nil)
 	// inside the membership loop the equality is reached only for consensus peers
 	var eqSinks []ir.Sink
-	for _, e := range ir.PassEdges(fn, member.G) {
+	for _, e := range ir.PassEdges(memberHost, member.G) {
 		eqSinks = append(eqSinks, ir.Sink{Instr: e.From.Instrs[len(e.From.Instrs)-1], Note: "address comparison"})
 	}
 	if len(eqSinks) > 0 {
-		eng.Dominates(c, "C25.only-validators-vote", fn, statusGuard, eqSinks, "voter comparison (per iteration)", &eng.Opt{StartBlock: mlp.Body})
+		eng.Dominates(c, "C25.only-validators-vote", memberHost, statusGuard, eqSinks, "voter comparison (per iteration)", &eng.Opt{StartBlock: mlp.Body})
 	}
 
 	// (c) threshold
 	var thr *ssa.BinOp
 	var thrCond ir.Cond
+	var thrNum, thrT ssa.Value
+	thrGeq := false
 	nThr := 0
 	thrIfs := map[*ssa.If]bool{} // threshold comparison -> passes on the true edge
+	// `num >= T` (pass on the true edge), its complement `num < T` (pass on the false edge), or either
+	// written with the operands swapped (`T <= num`, `T > num`)
+	orient := func(b *ssa.BinOp) (num, t ssa.Value, geq, ok bool) {
+		isT := func(v ssa.Value) bool {
+			if _, isConst := v.(*ssa.Const); isConst {
+				return false
+			}
+			if _, isPhi := v.(*ssa.Phi); isPhi {
+				return false // a bare counter is not a threshold expression
+			}
+			_, err := eng.ExtractExpr(v, func(x ssa.Value) bool { _, isPhi := x.(*ssa.Phi); return isPhi })
+			return err == nil
+		}
+		switch {
+		case (b.Op == token.GEQ || b.Op == token.LSS) && isT(b.Y):
+			return b.X, b.Y, b.Op == token.GEQ, true
+		case (b.Op == token.LEQ || b.Op == token.GTR) && isT(b.X):
+			return b.Y, b.X, b.Op == token.LEQ, true
+		}
+		return nil, nil, false, false
+	}
 	for _, cd := range ir.Conds(fn) {
-		// `num >= T` (pass on the true edge) or its complement `num < T` (pass on the false edge)
-		if b, ok := cd.V.(*ssa.BinOp); ok && (b.Op == token.GEQ || b.Op == token.LSS) {
-			if _, err := eng.ExtractExpr(b.Y, func(v ssa.Value) bool { _, isPhi := v.(*ssa.Phi); return isPhi }); err == nil {
-				if _, isConst := b.Y.(*ssa.Const); !isConst {
-					thrIfs[cd.If] = b.Op == token.GEQ
-					if thr == nil || (thr.Op == token.LSS && b.Op == token.GEQ) {
-						thr, thrCond = b, cd
-					}
-					nThr++
+		if b, ok := cd.V.(*ssa.BinOp); ok {
+			if num, t, geq, okO := orient(b); okO {
+				thrIfs[cd.If] = geq
+				if thr == nil || (!thrGeq && geq) {
+					thr, thrCond, thrNum, thrT, thrGeq = b, cd, num, t, geq
 				}
+				nThr++
 			}
 		}
 	}
@@ -190,7 +224,7 @@ func checkVoteFunc(c *core.Ctx, sp voteSpec) {
 		return
 	}
 	var sumPhi *ssa.Phi
-	tree, err := eng.ExtractExpr(thr.Y, func(v ssa.Value) bool {
+	tree, err := eng.ExtractExpr(thrT, func(v ssa.Value) bool {
 		if p, ok := v.(*ssa.Phi); ok {
 			sumPhi = p
 			return true
@@ -205,9 +239,9 @@ func checkVoteFunc(c *core.Ctx, sp voteSpec) {
 	c.Decide(ok, "C25.threshold", fn, "fires iff num >= ⌈2·sum/3⌉", c.P.Rel(thr.Pos()), why)
 	// every other comparison of num against a sum expression (CheckSigns has a second one) uses the same tree
 	for _, cd := range ir.Conds(fn) {
-		if b, okb := cd.V.(*ssa.BinOp); okb && (b.Op == token.LSS || b.Op == token.GEQ) && cd.If != thrCond.If {
-			if t2, err := eng.ExtractExpr(b.Y, func(v ssa.Value) bool { return v == ssa.Value(sumPhi) }); err == nil {
-				if _, isConst := b.Y.(*ssa.Const); !isConst {
+		if b, okb := cd.V.(*ssa.BinOp); okb && cd.If != thrCond.If {
+			if _, t, _, okO := orient(b); okO {
+				if t2, err := eng.ExtractExpr(t, func(v ssa.Value) bool { return v == ssa.Value(sumPhi) }); err == nil {
 					ok2, why2 := eng.EqualForAll(t2, eng.FormulaCeil2N3(), 0)
 					c.Decide(ok2, "C25.threshold", fn, "secondary comparison uses ⌈2·sum/3⌉", c.P.Rel(b.Pos()), why2)
 				}
@@ -226,7 +260,7 @@ func checkVoteFunc(c *core.Ctx, sp voteSpec) {
 	clp := loops[1]
 	isPeerAddr1 := derivedAddr(clp)
 	// num: the phi compared; its in-loop increments
-	numV := thr.X
+	numV := thrNum
 	numLeaves := eng.PhiLeaves(nil, numV)
 	var incs []*ssa.BinOp
 	seenInc := map[*ssa.BinOp]bool{}
